@@ -21,28 +21,28 @@ import (
 // the regenerated Gen.C12.poolSize, so the `crossed` field disagrees when the constant moves.
 const c02PoolMatches = 1024
 
-// dissectpipe <n> <groups> <pattern> <input> <batch>
+// dissectpipe <groups> <pattern> <input> <batch>
 //
 // The dissect matcher through the real extractor with ONE worker; every match is held until the channel is
 // drained (late consumption, GC forced), then Line / LineNumber / Indices / {0} of every held match are
 // re-read and compared with a fresh dissect instance asked about that line alone.  With more than 1024
 // matches the worker's IntPool is refilled while earlier index slices are still alive.
 func c02PoolRun(f []string) string {
-	if len(f) != 6 {
+	if len(f) != 5 {
 		return "bad-args"
 	}
-	groups, _ := strconv.Atoi(f[2])
-	pat := string(UnHex(f[3]))
+	groups, _ := strconv.Atoi(f[1])
+	pat := string(UnHex(f[2]))
 	d, err := dissect.CompileEx(pat, false)
 	if err != nil {
 		return "bad-pattern"
 	}
-	inputs := UnHexList(f[4])
+	inputs := UnHexList(f[3])
 	var data []byte
 	if len(inputs) > 0 {
 		data = inputs[0]
 	}
-	batch, _ := strconv.Atoi(f[5])
+	batch, _ := strconv.Atoi(f[4])
 	b := batchers.OpenReaderToChan("s0", &scriptedReader{rest: append([]byte{}, data...)}, batch, 2)
 	ext, err := extractor.New(b.BatchChan(), &extractor.Config{Matcher: matchers.ToFactory(d), Extract: "{0}", Workers: 1})
 	if err != nil {
@@ -56,10 +56,19 @@ func c02PoolRun(f []string) string {
 	time.Sleep(time.Millisecond)
 	lines := bytes.Split(data, []byte("\n"))
 	stable, n, bad := 1, 0, ""
+	sum := int64(0)
+	digest := func(ix []int) int64 {
+		acc := int64(1)
+		for _, v := range ix {
+			acc = (acc*131 + int64(v) + 7) % 1000000007
+		}
+		return acc
+	}
 	last := 0
 	for _, mb := range held {
 		for _, m := range mb {
 			n++
+			sum = (sum*31 + digest(m.Indices)) % 1000000007
 			ln := int(m.LineNumber)
 			if ln < 1 || ln > len(lines) || ln <= last {
 				stable = 0
@@ -93,7 +102,7 @@ func c02PoolRun(f []string) string {
 	if n > c02PoolMatches {
 		crossed = 1
 	}
-	return fmt.Sprintf("ok stable=%d n=%d crossed=%d%s", stable, n, crossed, bad)
+	return fmt.Sprintf("ok stable=%d n=%d crossed=%d sum=%d%s", stable, n, crossed, sum, bad)
 }
 
 func c02PoolGen(r *Rand, tier string) []string {
@@ -135,7 +144,7 @@ func c02PoolGen(r *Rand, tier string) []string {
 			n++
 		}
 		batch := Pick(r, []int{1, 7, 1000, 2000, 5000})
-		out = append(out, fmt.Sprintf("dissectpipe %d %d %s %s %d", n, p.groups, HexS(p.pat), HexList([][]byte{sb.Bytes()}), batch))
+		out = append(out, fmt.Sprintf("dissectpipe %d %s %s %d", p.groups, HexS(p.pat), HexList([][]byte{sb.Bytes()}), batch))
 	}
 	return out
 }
